@@ -30,7 +30,7 @@ class C02(Prop):
     floors = {'quick': (300, 100), 'thorough': (5000, 2000)}
     must_reach = ['online/ast_visitor:StlDiscreteTimeOnlineAstVisitor.visitPredicate']
     quick_cases = 2000
-    thorough_cases = 300000
+    thorough_cases = 1200000
 
     def gen(self, rng, ctx):
         c = past_cfg(rng)
